@@ -203,6 +203,20 @@ let eval = function
        let nums = lmap (fun i -> oh (lag_ith_numerator o t frame rs (z_of_int i))) (Stdlib.List.init (cl + 1) (fun i -> i)) in
        Stdlib.Printf.sprintf "nc=%s nums=%s comb=%s" (h (lag_num_constraints t)) (cat "," nums)
          (oh (lag_evaluate_and_combine o t frame rs (z x))))
+  | [ "glue"; fld; n; mw; aw; g; tag; ml; al ] ->
+    (* BoundaryConstraints::new on a two-segment context: each list validated against its OWN segment's width *)
+    ignore (fld, g, tag);
+    let parse lst = lmap (fun s -> match split_on ',' s with
+        | [ k; col; first; stride; nvals ] -> ctor k col first stride nvals
+        | _ -> failwith "spec") (split_on ';' lst) in
+    let m = parse ml and a = parse al in
+    if Stdlib.List.exists (fun x -> x = None) (m @ a) then "panic"
+    else
+      (match boundary_prepare (lmap get m) (lmap get a) (z mw) (z aw) (z n) with
+       | Datatypes.Coq_inl PEWidth -> "width" | Datatypes.Coq_inl PELength -> "length"
+       | Datatypes.Coq_inl PEOverlap -> "overlap" | Datatypes.Coq_inl PEPanic -> "panic"
+       | Datatypes.Coq_inr (pm, pa) ->
+         Stdlib.Printf.sprintf "ok %x %x" (Stdlib.List.length pm) (Stdlib.List.length pa))
   | op :: _ -> "driver-error:unknown-op:" ^ op
   | [] -> "driver-error:empty"
 
